@@ -258,6 +258,7 @@ type callResult struct {
 	aux   int64
 	panic string
 	hang  bool
+	text  string
 }
 
 var callTimeout = 20 * time.Second
@@ -460,6 +461,12 @@ func main() {
 		switch *stream {
 		case "arith":
 			rn.streamArith(g, opList, *extreme)
+		case "digits":
+			rn.streamDigits(g, *extreme)
+		case "order":
+			rn.streamOrder(g)
+		case "conv":
+			rn.streamConv(g)
 		default:
 			fmt.Fprintf(os.Stderr, "unknown stream %q\n", *stream)
 			os.Exit(2)
